@@ -86,6 +86,12 @@ Theorem C11_mutation_terminates : forall sigma, fair sigma -> forall drain fuel 
   exists r, run_gen drain (Some sigma) Mutation fuel root = Done r.
 Proof. exact mutation_terminates. Qed.
 
+(** a request without idle handler always returns (wait answers "No idle handler defined." as soon
+    as a future is not ready) *)
+Theorem C11_mutation_terminates_no_handler : forall drain fuel root,
+  exists r, run_gen drain None Mutation fuel root = Done r.
+Proof. exact mutation_terminates_no_handler. Qed.
+
 (** the same for queries (the non-serial path beneath every root field) *)
 Theorem C11_query_terminates : forall sigma, fair sigma -> forall fuel root,
   count_async root <= fuel ->
@@ -136,6 +142,7 @@ Print Assumptions C11_mutation_serial_starts.
 Print Assumptions C11_mutation_serial_with_drain.
 Print Assumptions C11_mutation_key_order.
 Print Assumptions C11_mutation_terminates.
+Print Assumptions C11_mutation_terminates_no_handler.
 Print Assumptions C11_query_terminates.
 Print Assumptions C11_mutation_serial_total.
 Print Assumptions C11_mutation_serial_refuted_when_promise_abandoned.
